@@ -285,6 +285,11 @@ def _xpub_table(c, prog):
                    "outcomes %s" % sorted(out2), f.where(), fnp)
     c.inst("R4.xpub-atoms-recognised", "every branch condition of the xpub arm is a known atom", not unknown_atoms,
            "unrecognised conditions: %s" % sorted(unknown_atoms), f.where(), fnp)
+    # the overwrite stores other's complete key source (fingerprint and path from the same operand)
+    occ = [(bi, t) for bi, t in b.calls(lambda t: callee_name(t).endswith("OccupiedEntry::<'a, K, V, A>::insert"))]
+    oko = len(occ) == 1 and show(prov.operand(occ[0][1]["args"][1])) == "tuple{%s, %s}" % (F1, D1)
+    c.inst("R4.xpub-overwrite-value", "longer path wins: the entry is replaced by other's (fingerprint, path) pair", oko,
+           "inserted value %s; a pair mixing the two operands exists in neither PSET" % [show(prov.operand(t["args"][1])) for _, t in occ], f.where(), fnp)
     # vacant entry inserts other's source
     vac = [(bi, t) for bi, t in b.calls(lambda t: callee_name(t).endswith("VacantEntry::<'a, K, V, A>::insert"))]
     okv = len(vac) == 1 and show(prov.operand(vac[0][1]["args"][1])) == "tuple{%s, %s}" % (F1, D1)
